@@ -1305,6 +1305,17 @@ def run_predform_case(p):
         # the registry is cleared after the instances were made: the type filter does not depend on what is registered
         O.reset_registry()
     v_name, v_size = rng.choice(names), rng.choice([1, 2])
+    if rng.random() < 0.25:
+        # a bool as the required value is a VALUE like any other (True == 1, False == 0; never "is truthy")
+        v_size = rng.choice([True, False])
+        for o in members:
+            if rng.random() < 0.5:
+                o.size = rng.choice([0, 1, 2, 3])
+    if rng.random() < 0.15:
+        v_name = rng.choice([True, False, ''])
+        for o in members:
+            if rng.random() < 0.5:
+                o.name = rng.choice([True, False, '', 'a', None, 1])
     try:
         with symbolic_mode():
             if style == 'kw_name':
